@@ -13,7 +13,7 @@ import numpy as np
 from ase.units import kB
 
 from campaigns.history import HistoryCampaign, gen_history
-from simkit import calcs
+from simkit import calcs, gen
 from simkit.world import Monitor
 
 H_SI = 6.62607015e-34
@@ -244,6 +244,10 @@ class C02(HistoryCampaign):
                 return json.load(f)
         sc = gen_history(rnd, self.flavor)
         ntr = sum(s["n"] for s in sc["steps"]) * sc["params"]["max_cycles"]
+        if sc["driver"] in ("Isobaric", "Isotension") and rnd.random() < 0.15:
+            # the box is rescaled after the simulation object was built and before it is run: the old volume of the
+            # first cell trials is the volume the atoms have THEN
+            sc.setdefault("edits", []).append({"before_segment": 0, "cell_scale": gen.rfloat(rnd, 0.8, 1.25, 3)})
         if rnd.random() < 0.6:
             sc["u_tape"] = {str(t): rnd.choice(["zero", "below", "above", "max"]) for t in range(ntr) if rnd.random() < 0.4}
         return sc
